@@ -1109,6 +1109,37 @@ def stack(arrays, axis=0, dtype=None):
                    (lambda i: pick(i, lambda a, r: a.mask_fn(r) if a.mask_fn else False)) if anym else None)
 
 
+def repeat(a, repeats, axis=None):
+    """NP-REPEAT (scalar repeat count along one axis): out[.., k, ..] = a[.., k // repeats, ..]"""
+    used('NP-REPEAT')
+    a = asarray(a).frozen()
+    if axis is None:
+        raise Unsupported('numpy.repeat without an axis')
+    if isinstance(repeats, (NDArray, list, tuple)):
+        raise Unsupported('numpy.repeat with per-element counts')
+    ax = axis + a.ndim if axis < 0 else axis
+    c = core.ctx()
+    if is_sym(repeats):
+        if c.branch(zint(repeats) < 0):
+            raise_(ValueError, 'negative dimensions are not allowed')
+    elif repeats < 0:
+        raise_(ValueError, 'negative dimensions are not allowed')
+    n = a.shape[ax]
+    shape = a.shape[:ax] + (n * repeats,) + a.shape[ax + 1:]
+    one = (not is_sym(n)) and n == 1
+
+    def src(i):
+        k = i[ax]
+        if one:
+            q = 0
+        elif not is_sym(k) and not is_sym(repeats):
+            q = k // repeats
+        else:
+            q = mk_int(zint(k) / zint(repeats))
+        return tuple(i[:ax]) + (q,) + tuple(i[ax + 1:])
+    return NDArray(shape, lambda i: a.fn(src(i)), a.dtype, (lambda i: a.mask_fn(src(i))) if a.mask_fn is not None else None)
+
+
 def concatenate(arrays, axis=0):
     used('NP-CONCATENATE')
     arrs = [asarray(x).frozen() for x in arrays]
@@ -1918,6 +1949,7 @@ class NumpyModule:
     equal = staticmethod(np_equal)
     asarray = staticmethod(np_array)
     stack = staticmethod(stack)
+    repeat = staticmethod(repeat)
     concatenate = staticmethod(concatenate)
     expand_dims = staticmethod(expand_dims)
     broadcast_to = staticmethod(broadcast_to)
